@@ -14,7 +14,9 @@
 (***************************************************************************)
 EXTENDS Naturals, Integers, Sequences, FiniteSets, TLC
 
-Openers == {"block", "loop", "if"}
+\* "try" is a try_table without catch clauses: control-wise a block (the library must not mistake its end for
+\* another construct's; nothing is injected on it)
+Openers == {"block", "loop", "if", "try"}
 
 RECURSIVE FindEnd(_, _, _)
 FindEnd(code, j, d) ==
@@ -132,7 +134,7 @@ XStep(m, code, jt, ar, v) ==
       [] o = "lget"  -> [nx EXCEPT !.vs = Append(@, LocOf(m, c.x))]
       [] o = "lset"  -> IF Len(m.vs) = 0 THEN Stuck(m)
                         ELSE [nx EXCEPT !.vs = Pop(@), !.loc = (c.x :> Top(m.vs)) @@ @]
-      [] o = "block" -> [nx EXCEPT !.ls = Append(@, Label("block", jt[m.pc].end + 1, Len(m.vs), c.r, m.pc, jt[m.pc].end))]
+      [] o \in {"block", "try"} -> [nx EXCEPT !.ls = Append(@, Label("block", jt[m.pc].end + 1, Len(m.vs), c.r, m.pc, jt[m.pc].end))]
       [] o = "loop"  -> [nx EXCEPT !.ls = Append(@, Label("loop", m.pc + 1, Len(m.vs), c.r, m.pc, jt[m.pc].end))]
       [] o = "if"    -> IF Len(m.vs) = 0 THEN Stuck(m)
                         ELSE LET cv == Top(m.vs)
